@@ -229,7 +229,8 @@ pub fn write_replay(env: &Env, decls: &[vmodel::Decl], v: &vlib_report::Viol, ti
         "property": v.prop,
         "signature": v.signature,
         "decl_id": v.decl_id,
-        "declaration": v.decl,
+        "declaration": d.map(|d| d.decl_text()).unwrap_or_else(|| v.decl.clone()),
+        "declaration_as_generated": v.decl,
         "case": v.case,
         "expected": v.expected,
         "actual": v.actual,
@@ -304,11 +305,26 @@ fn finish(
     for v in &new_viols {
         let first = seen_sig.insert(v.signature.clone());
         if first && printed < 8 {
+            // declaration-level shrinking for the first few violations (VERIF_SHRINK=0 disables)
+            let mut decls_for_replay: Vec<vmodel::Decl> = decls.to_vec();
+            let mut shrunk_note = String::new();
+            if printed < 3 && std::env::var("VERIF_SHRINK").map_or(true, |s| s != "0") {
+                if let Some((small, steps)) = shrink_decl(env, decls, v) {
+                    shrunk_note = format!("  shrunk declaration ({steps} removal step(s)): {}", small.decl_text().replace('\n', " "));
+                    if let Some(slot) = decls_for_replay.iter_mut().find(|d| d.id == small.id) {
+                        *slot = small;
+                    }
+                }
+            }
+            let decls = &decls_for_replay[..];
             let dir = write_replay(env, decls, v, tier);
             println!("VIOLATION property={prop} replay={}", dir.display());
             println!("  signature: {}", v.signature);
             println!("  declaration: {}", v.decl.replace('\n', " "));
             println!("  case: {}  expected: {}  actual: {}", v.case, v.expected, v.actual);
+            if !shrunk_note.is_empty() {
+                println!("{shrunk_note}");
+            }
             printed += 1;
         }
     }
@@ -445,5 +461,147 @@ pub fn replay(env: &Env, dir: &str) -> i32 {
             println!("  signature: {}\n  case: {}\n  expected: {}\n  actual: {}", v.signature, v.case, v.expected, v.actual);
         }
         1
+    }
+}
+
+
+// ------------------------------------------------------------------------------------------------
+// Declaration-level shrinking (DESIGN §7): greedy removal of derives / sanitizers / validators /
+// flags, each round building all single-removal candidates in one crate and re-evaluating the saved
+// case on each; the smallest declaration that still fails in the same way replaces the original in
+// the replay file.
+
+fn failure_class(sig: &str) -> String {
+    // property | inner type | entry | kind — without the sans=/vals= detail, which changes while shrinking
+    sig.split('|').filter(|p| !p.starts_with("sans=") && !p.starts_with("vals=") && !p.starts_with("rule=") && !p.starts_with("by=")).take(4).collect::<Vec<_>>().join("|")
+}
+
+fn removal_candidates(d: &vmodel::Decl) -> Vec<(String, vmodel::Decl)> {
+    use vmodel::{Tr, Vals};
+    let mut out = vec![];
+    let prereq_ok = |ds: &Vec<Tr>| {
+        let has = |t: Tr| ds.contains(&t);
+        (!has(Tr::Eq) || has(Tr::PartialEq)) && (!has(Tr::PartialOrd) || has(Tr::PartialEq)) && (!has(Tr::Ord) || (has(Tr::PartialOrd) && has(Tr::Eq))) && (!has(Tr::Copy) || has(Tr::Clone))
+    };
+    // all derives at once, then one at a time
+    if d.derives.len() > 1 {
+        let mut x = d.clone();
+        x.derives.clear();
+        out.push(("no-derives".into(), x));
+    }
+    // keep a single trait (with its prerequisites): usually the entry point the property is about
+    if d.derives.len() > 3 {
+        for t in &d.derives {
+            let mut keep = vec![*t];
+            match t {
+                Tr::Eq | Tr::PartialOrd => keep.push(Tr::PartialEq),
+                Tr::Ord => keep.extend([Tr::PartialEq, Tr::Eq, Tr::PartialOrd]),
+                Tr::Copy => keep.push(Tr::Clone),
+                Tr::Serialize => keep.push(Tr::Deserialize),
+                Tr::Hash => keep.extend([Tr::PartialEq, Tr::Eq, Tr::Borrow]),
+                _ => {}
+            }
+            let mut x = d.clone();
+            x.derives.retain(|y| keep.contains(y));
+            if x.derives.len() < d.derives.len() && prereq_ok(&x.derives) {
+                out.push((format!("only-{}", t.name()), x));
+            }
+        }
+    }
+    for t in &d.derives {
+        let mut x = d.clone();
+        x.derives.retain(|y| y != t);
+        if *t == Tr::Default {
+            // keep `default =` (legal without the derive)
+        }
+        if prereq_ok(&x.derives) {
+            out.push((format!("-{}", t.name()), x));
+        }
+    }
+    for i in 0..d.sans.len() {
+        let mut x = d.clone();
+        x.sans.remove(i);
+        out.push((format!("-sanitizer{i}"), x));
+    }
+    if let Vals::Std(vs) = &d.vals {
+        for i in 0..vs.len() {
+            let mut x = d.clone();
+            let mut v = vs.clone();
+            v.remove(i);
+            if v.is_empty() {
+                x.vals = Vals::None;
+                // From/TryFrom admissibility flips with validation: drop both to stay well-formed
+                x.derives.retain(|t| !matches!(t, Tr::TryFrom | Tr::From));
+            } else {
+                x.vals = Vals::Std(v);
+            }
+            out.push((format!("-validator{i}"), x));
+        }
+    }
+    if d.default.is_some() && !d.derives.contains(&Tr::Default) {
+        let mut x = d.clone();
+        x.default = None;
+        out.push(("-default".into(), x));
+    }
+    if d.new_unchecked {
+        let mut x = d.clone();
+        x.new_unchecked = false;
+        out.push(("-new_unchecked".into(), x));
+    }
+    if d.layout != vmodel::Layout::default() {
+        let mut x = d.clone();
+        x.layout = vmodel::Layout::default();
+        out.push(("canonical-layout".into(), x));
+    }
+    out
+}
+
+pub fn shrink_decl(env: &Env, decls: &[vmodel::Decl], v: &vlib_report::Viol) -> Option<(vmodel::Decl, usize)> {
+    let orig = decls.iter().find(|d| d.id == v.decl_id)?.clone();
+    if orig.twin_of.is_some() || v.signature.contains("twin-mismatch") || v.signature.contains("const-eval") {
+        return None;
+    }
+    let class = failure_class(&v.signature);
+    let dir = env.work.join("gen/shrink");
+    let mut cur = orig.clone();
+    let mut steps = 0;
+    for _round in 0..12 {
+        let mut cands = removal_candidates(&cur);
+        if cands.is_empty() {
+            break;
+        }
+        for (i, (_, c)) in cands.iter_mut().enumerate() {
+            c.id = format!("k{:03}", i + 1);
+            c.twin_of = None;
+            c.const_evals.clear();
+        }
+        let cdecls: Vec<vmodel::Decl> = cands.iter().map(|(_, c)| c.clone()).collect();
+        let Ok(built) = build_rt(env, &dir, "shrinkcorpus", &cdecls, false) else { break };
+        // evaluate the saved case on every surviving candidate
+        let mut next: Option<vmodel::Decl> = None;
+        for (_name, c) in &cands {
+            if built.rejected.contains_key(&c.id) {
+                continue;
+            }
+            let extra = vec!["--only".to_string(), c.id.clone(), "--case".to_string(), v.case.to_string()];
+            let Ok(rep) = run_harness(env, &built.bins, &v.prop, "quick", &extra) else { continue };
+            if rep.viols.iter().any(|x| failure_class(&x.signature) == class) {
+                next = Some(c.clone());
+                break;
+            }
+        }
+        match next {
+            Some(mut n) => {
+                n.id = orig.id.clone();
+                cur = n;
+                steps += 1;
+            }
+            None => break,
+        }
+    }
+    if steps == 0 {
+        None
+    } else {
+        Some((cur, steps))
     }
 }
